@@ -5,16 +5,16 @@ import GoMC.Model.Gate
 namespace GoMC.Lemmas.Gate
 open GoMC GoMC.Model.Gate
 
-theorem join_accept (cfg : Cfg) (name host : Bytes) (port : Nat)
+theorem join_accept (cfg : Cfg) (name host : Bytes) (claimed : UUID) (port : Nat)
     (hacc : cfg.checker.bind (fun chk => chk name (cfg.ouuid name) protocolVersion) = none) :
-    let s := run cfg 7 (initJoin name host port)
+    let s := run cfg 7 (initJoin name claimed host port)
     let z := decide (cfg.threshold ≥ 0)
     s.client.phase = .joined ∧
     s.server.phase = .play name (cfg.ouuid name) protocolVersion ∧
     s.serverGarbled = false ∧
     s.client.name = name ∧ s.client.uuid = cfg.ouuid name ∧
     s.c2s = [] ∧ s.s2c = [] ∧
-    s.c2sLog = [⟨false, .handshake protocolVersion host port 2⟩, ⟨false, .loginHello name zeroUUID⟩,
+    s.c2sLog = [⟨false, .handshake protocolVersion host port 2⟩, ⟨false, .loginHello name claimed⟩,
                 ⟨z, .loginAck⟩, ⟨z, .finishAck⟩] ∧
     s.s2cLog = (if cfg.threshold ≥ 0 then [⟨false, .setCompression cfg.threshold⟩] else []) ++
                 [⟨z, .loginSuccess (cfg.ouuid name) name⟩, ⟨z, .finishConfig⟩] ∧
@@ -26,9 +26,9 @@ theorem join_accept (cfg : Cfg) (name host : Bytes) (port : Nat)
   · simp [run, step, initJoin, startWith, clientJoinStart, applyActs, deliverToServer, deliverToClient,
       serverOn, clientOn, hacc, h]
 
-theorem join_refuse (cfg : Cfg) (name host : Bytes) (port : Nat) (reason : Bytes)
+theorem join_refuse (cfg : Cfg) (name host : Bytes) (claimed : UUID) (port : Nat) (reason : Bytes)
     (href : cfg.checker.bind (fun chk => chk name (cfg.ouuid name) protocolVersion) = some reason) :
-    let s := run cfg 7 (initJoin name host port)
+    let s := run cfg 7 (initJoin name claimed host port)
     s.client.phase = .failed (.disconnect reason) ∧
     s.server.phase = .closed ∧
     s.serverGarbled = false ∧
@@ -57,12 +57,12 @@ theorem run_succ (cfg : Cfg) (n : Nat) (s : Sys) : run cfg (n + 1) s = step cfg 
 
 /-- along the canonical run of an accepted join, each party's read is either blocked (no-op) or IS the next
     canonical step -/
-theorem lockstep_le (cfg : Cfg) (name host : Bytes) (port : Nat)
+theorem lockstep_le (cfg : Cfg) (name host : Bytes) (claimed : UUID) (port : Nat)
     (hacc : cfg.checker.bind (fun chk => chk name (cfg.ouuid name) protocolVersion) = none) (k : Nat) (hk : k ≤ 7) :
-    let s := run cfg k (initJoin name host port)
-    (deliverToServer cfg s = s ∨ deliverToServer cfg s = run cfg (k + 1) (initJoin name host port)) ∧
-    (deliverToClient s = s ∨ deliverToClient s = run cfg (k + 1) (initJoin name host port)) ∧
-    (s.c2s = [] → s.s2c = [] → s = run cfg 7 (initJoin name host port)) := by
+    let s := run cfg k (initJoin name claimed host port)
+    (deliverToServer cfg s = s ∨ deliverToServer cfg s = run cfg (k + 1) (initJoin name claimed host port)) ∧
+    (deliverToClient s = s ∨ deliverToClient s = run cfg (k + 1) (initJoin name claimed host port)) ∧
+    (s.c2s = [] → s.s2c = [] → s = run cfg 7 (initJoin name claimed host port)) := by
   have : k = 0 ∨ k = 1 ∨ k = 2 ∨ k = 3 ∨ k = 4 ∨ k = 5 ∨ k = 6 ∨ k = 7 := by omega
   by_cases h : cfg.threshold ≥ 0
   · rcases this with rfl | rfl | rfl | rfl | rfl | rfl | rfl | rfl <;>
@@ -72,10 +72,10 @@ theorem lockstep_le (cfg : Cfg) (name host : Bytes) (port : Nat)
       simp [run, step, initJoin, startWith, clientJoinStart, applyActs, deliverToServer, deliverToClient,
         serverOn, clientOn, hacc, h]
 
-theorem run_stable (cfg : Cfg) (name host : Bytes) (port : Nat)
+theorem run_stable (cfg : Cfg) (name host : Bytes) (claimed : UUID) (port : Nat)
     (hacc : cfg.checker.bind (fun chk => chk name (cfg.ouuid name) protocolVersion) = none) (n : Nat) :
-    run cfg (7 + n) (initJoin name host port) = run cfg 7 (initJoin name host port) := by
-  have h8 : run cfg 8 (initJoin name host port) = run cfg 7 (initJoin name host port) := by
+    run cfg (7 + n) (initJoin name claimed host port) = run cfg 7 (initJoin name claimed host port) := by
+  have h8 : run cfg 8 (initJoin name claimed host port) = run cfg 7 (initJoin name claimed host port) := by
     by_cases h : cfg.threshold ≥ 0
     · simp [run, step, initJoin, startWith, clientJoinStart, applyActs, deliverToServer, deliverToClient,
         serverOn, clientOn, hacc, h]
@@ -87,33 +87,33 @@ theorem run_stable (cfg : Cfg) (name host : Bytes) (port : Nat)
     rw [show 7 + (n + 1) = (7 + n) + 1 from rfl, run_succ, ih, ← run_succ]
     exact h8
 
-theorem lockstep (cfg : Cfg) (name host : Bytes) (port : Nat)
+theorem lockstep (cfg : Cfg) (name host : Bytes) (claimed : UUID) (port : Nat)
     (hacc : cfg.checker.bind (fun chk => chk name (cfg.ouuid name) protocolVersion) = none) (k : Nat) :
-    let s := run cfg k (initJoin name host port)
-    (deliverToServer cfg s = s ∨ deliverToServer cfg s = run cfg (k + 1) (initJoin name host port)) ∧
-    (deliverToClient s = s ∨ deliverToClient s = run cfg (k + 1) (initJoin name host port)) ∧
-    (s.c2s = [] → s.s2c = [] → s = run cfg 7 (initJoin name host port)) := by
+    let s := run cfg k (initJoin name claimed host port)
+    (deliverToServer cfg s = s ∨ deliverToServer cfg s = run cfg (k + 1) (initJoin name claimed host port)) ∧
+    (deliverToClient s = s ∨ deliverToClient s = run cfg (k + 1) (initJoin name claimed host port)) ∧
+    (s.c2s = [] → s.s2c = [] → s = run cfg 7 (initJoin name claimed host port)) := by
   by_cases hk : k ≤ 7
-  · exact lockstep_le cfg name host port hacc k hk
+  · exact lockstep_le cfg name host claimed port hacc k hk
   · obtain ⟨n, rfl⟩ : ∃ n, k = 7 + n := ⟨k - 7, by omega⟩
-    have h7 := lockstep_le cfg name host port hacc 7 (Nat.le_refl 7)
-    have e1 := run_stable cfg name host port hacc n
-    have e2 := run_stable cfg name host port hacc (n + 1)
-    have e3 := run_stable cfg name host port hacc 1
+    have h7 := lockstep_le cfg name host claimed port hacc 7 (Nat.le_refl 7)
+    have e1 := run_stable cfg name host claimed port hacc n
+    have e2 := run_stable cfg name host claimed port hacc (n + 1)
+    have e3 := run_stable cfg name host claimed port hacc 1
     simp only at h7 ⊢
     rw [show 7 + n + 1 = 7 + (n + 1) from rfl, e1, e2]
     rw [show 7 + 1 = 8 from rfl] at h7 e3
     rw [e3] at h7
     exact ⟨h7.1, h7.2.1, fun _ _ => rfl⟩
 
-theorem any_schedule (cfg : Cfg) (name host : Bytes) (port : Nat)
+theorem any_schedule (cfg : Cfg) (name host : Bytes) (claimed : UUID) (port : Nat)
     (hacc : cfg.checker.bind (fun chk => chk name (cfg.ouuid name) protocolVersion) = none) (cs : List Bool) :
-    ∀ k, ∃ k', runAny cfg cs (run cfg k (initJoin name host port)) = run cfg k' (initJoin name host port) := by
+    ∀ k, ∃ k', runAny cfg cs (run cfg k (initJoin name claimed host port)) = run cfg k' (initJoin name claimed host port) := by
   induction cs with
   | nil => intro k; exact ⟨k, rfl⟩
   | cons b cs ih =>
     intro k
-    have hl := lockstep cfg name host port hacc k
+    have hl := lockstep cfg name host claimed port hacc k
     simp only at hl
     cases b with
     | true =>
@@ -127,14 +127,14 @@ theorem any_schedule (cfg : Cfg) (name host : Bytes) (port : Nat)
       · exact ih k
       · exact ih (k + 1)
 
-theorem any_schedule_final (cfg : Cfg) (name host : Bytes) (port : Nat)
+theorem any_schedule_final (cfg : Cfg) (name host : Bytes) (claimed : UUID) (port : Nat)
     (hacc : cfg.checker.bind (fun chk => chk name (cfg.ouuid name) protocolVersion) = none) (cs : List Bool)
-    (h1 : (runAny cfg cs (initJoin name host port)).c2s = []) (h2 : (runAny cfg cs (initJoin name host port)).s2c = []) :
-    runAny cfg cs (initJoin name host port) = run cfg 7 (initJoin name host port) := by
-  obtain ⟨k, hk⟩ := any_schedule cfg name host port hacc cs 0
+    (h1 : (runAny cfg cs (initJoin name claimed host port)).c2s = []) (h2 : (runAny cfg cs (initJoin name claimed host port)).s2c = []) :
+    runAny cfg cs (initJoin name claimed host port) = run cfg 7 (initJoin name claimed host port) := by
+  obtain ⟨k, hk⟩ := any_schedule cfg name host claimed port hacc cs 0
   simp only [run] at hk
   rw [hk] at h1 h2 ⊢
-  exact (lockstep cfg name host port hacc k).2.2 h1 h2
+  exact (lockstep cfg name host claimed port hacc k).2.2 h1 h2
 
 /-! ### play channels -/
 
